@@ -86,6 +86,15 @@ func entryPoints() []ep {
 	fx("Infof", slog.InfoLevel, func(l slog.Logger, _ context.Context) { _ = l.Infof("%s %d", m, 1) })
 	fx("Warnf", slog.WarnLevel, func(l slog.Logger, _ context.Context) { _ = l.Warnf("%s %d", m, 1) })
 	fx("Errorf", slog.ErrorLevel, func(l slog.Logger, _ context.Context) { _ = l.Errorf("%s %d", m, 1) })
+	// the same rule for calls that carry nothing but a blank message (no attributes at all)
+	fx("Error(blank)", slog.ErrorLevel, func(l slog.Logger, _ context.Context) { l.Error("") })
+	fx("Info(blank)", slog.InfoLevel, func(l slog.Logger, _ context.Context) { l.Info(" ") })
+	fx("WarnContext(blank)", slog.WarnLevel, func(l slog.Logger, c context.Context) { l.WarnContext(c, "\n") })
+	fx("DebugContext(blank)", slog.DebugLevel, func(l slog.Logger, c context.Context) { l.DebugContext(c, " \t ") })
+	fx("OK(blank)", slog.OKLevel, func(l slog.Logger, _ context.Context) { l.OK("") })
+	fx("Print(blank)", slog.AlwaysLevel, func(l slog.Logger, _ context.Context) { l.Print("") })
+	eps = append(eps, ep{name: "LogAttrs(blank)", call: func(l slog.Logger, c context.Context, s slog.Level) { l.LogAttrs(c, s, "") }})
+	eps = append(eps, ep{name: "Logit(blank)", call: func(l slog.Logger, c context.Context, s slog.Level) { l.Logit(c, s, "\r\n") }})
 	eps = append(eps, ep{name: "LogAttrs", call: func(l slog.Logger, c context.Context, s slog.Level) { l.LogAttrs(c, s, m, "a", 1) }})
 	eps = append(eps, ep{name: "Logit", call: func(l slog.Logger, c context.Context, s slog.Level) { l.Logit(c, s, m, "a", 1) }})
 	for _, sl := range []struct {
@@ -105,6 +114,8 @@ func entryPoints() []ep {
 	px := func(name string, sev slog.Level, f func(ctx context.Context)) {
 		eps = append(eps, ep{name: "pkg." + name, fixed: true, sev: sev, pkg: true, call: func(_ slog.Logger, ctx context.Context, _ slog.Level) { f(ctx) }})
 	}
+	px("Warn(blank)", slog.WarnLevel, func(context.Context) { slog.Warn("") })
+	px("TraceContext(blank)", slog.TraceLevel, func(c context.Context) { slog.TraceContext(c, " ") })
 	px("Panic", slog.PanicLevel, func(context.Context) { slog.Panic(m, "a", 1) })
 	px("Fatal", slog.FatalLevel, func(context.Context) { slog.Fatal(m, "a", 1) })
 	px("Error", slog.ErrorLevel, func(context.Context) { slog.Error(m, "a", 1) })
